@@ -85,6 +85,7 @@ def flattenEvent(event: LogEvent) -> None:
         if fieldName is None:
             continue
 
+        explicitConversion = conversion
         if conversion not in ("r", "a"):
             conversion = "s"
 
@@ -114,7 +115,17 @@ def flattenEvent(event: LogEvent) -> None:
         if callit:
             fieldValue = fieldValue()
 
-        flattenedValue = conversionFunction(fieldValue)
+        if formatSpec:
+            # Apply the format specification now, as formatting the original
+            # event would; a nested replacement field is expanded first.
+            if "{" in formatSpec:
+                formatSpec = aFormatter.vformat(formatSpec, (), event)
+            if explicitConversion is None:
+                flattenedValue = format(fieldValue, formatSpec)
+            else:
+                flattenedValue = format(conversionFunction(fieldValue), formatSpec)
+        else:
+            flattenedValue = conversionFunction(fieldValue)
         fields[flattenedKey] = flattenedValue
         fields[structuredKey] = fieldValue
 
